@@ -465,6 +465,9 @@ def _scope_rules(run, pid, r1=True, r2=True, r9=True, generic=True):
                 r10_args.check_unit_typestate(run, f)
         r10_args.check_recursion_options(run, [f for f in fs if f.key not in seen])
         r10_args.check_none_default_tests(run, [f for f in fs if f.key not in seen])
+        for f in fs:
+            if f.key not in seen:
+                r7_binary.check_duplicates(run, f)           # x - x, x == x, atan2(a, a), a paired loop variable that is never used
         if not r1:
             r20_shapes.check_shapes(run, [f for f in fs if f.key not in seen])
         r15_closed.check_unchecked_sites(run, keys={f.key for f in fs if f.key not in seen})
@@ -647,6 +650,7 @@ def c05(run):
     r15_closed.check_unchecked_sites(run, only=('AngVec', 'Eul', 'RPY', 'OA', 'EulerVec', 'AngleAxis', 'Rx', 'Ry', 'Rz', 'TwoVectors', 'Vec3', 'SO3', 'SE3',
                                                 'UnitQuaternion', 'Exp'))
     r19_angles.check_tr2rpy(run, r16_tables.RPY_WORDS)
+    r19_angles.check_pivot_tables(run)
     r19_angles.check_tr2eul(run, [('z', 0), ('y', 1), ('z', 2)])
     run.floor('R19', 33)
     _scope_rules(run, 'C05')
